@@ -259,7 +259,7 @@ def process(ctx, scs):
 
 def load_corpus():
     d = leanside.ROOT / 'corpus' / PID
-    return [json.loads(f.read_text())['scenario'] for f in sorted(d.glob('*.json'))] if d.is_dir() else []
+    return [json.loads(f.read_text())['scenario'] for f in sorted(x for x in d.glob('*.json') if not x.name.startswith(('seeded-', 'regress-')))] if d.is_dir() else []
 
 
 def run(ctx):
